@@ -4,9 +4,9 @@
 d=$1; n=$(basename $d); wt=/tmp/confirm_$n
 git -C /repo worktree add -q --detach $wt HEAD || exit 9
 cd $wt
-clean_demo=$(/venv/bin/python -W ignore $d/demo.py > /tmp/confirm_$n.clean.log 2>&1; echo $?)
+clean_demo=$(PYTHONPATH=$wt /venv/bin/python -W ignore $d/demo.py > /tmp/confirm_$n.clean.log 2>&1; echo $?)
 git apply $d/patch.diff || { echo "$n patch-does-not-apply"; cd /; git -C /repo worktree remove --force $wt; exit 8; }
-patched_demo=$(/venv/bin/python -W ignore $d/demo.py > /tmp/confirm_$n.patched.log 2>&1; echo $?)
+patched_demo=$(PYTHONPATH=$wt /venv/bin/python -W ignore $d/demo.py > /tmp/confirm_$n.patched.log 2>&1; echo $?)
 /venv/bin/python -W ignore -m pytest -q -p no:cacheprovider --timeout=900 --continue-on-collection-errors -x --deselect test/test_cell.py::TestCell::test_output_403 --deselect test/test_cell.py::TestCell::test_output_404 --deselect test/test_excel.py::TestExcelModel::test_excel_model > /tmp/confirm_$n.tests.log 2>&1
 tests_rc=$?
 summary=$(tail -1 /tmp/confirm_$n.tests.log)
